@@ -248,7 +248,12 @@ def advVerdict (a b c : FVal) (bd : Int) (iq ish q s : Int) (op : Nat) : Option 
   let sh : Nat := if bd = 8 then 20 else 15
   let mx := maxPos pa pb
   let mn := minPos pa pb
-  let cls := if anyF32 a b c then "f32" else "u"
+  -- class `mixcmp`: one input scale is a Python float, the other an np.float32, they differ, but are
+  -- equal once the Python float is rounded to float32 (how NumPy ≥ 2 compares them): the `max`/`min`/`<`
+  -- of the advanced helper run on the raw scalars and treat the two scales as equal
+  let mixed := (a.kind == .py && b.kind == .f32) || (a.kind == .f32 && b.kind == .py)
+  let cls := if mixed && cmpEq ieee a b && !decide (DyEq pa.1 pa.2 pb.1 pb.2) then "mixcmp"
+             else if anyF32 a b c then "f32" else "u"
   let tol := pairTol .f64
   let ref := advancedAddSub ieee (asF64 a) (asF64 b) (asF64 c) bd
   let refOk : Bool := match ref with
@@ -416,7 +421,8 @@ def handle : List String → Option String
   | ["poolreg", k, n] => do
     let k ← parseKind k
     let n ← parseInt? n
-    some (pairStr (poolRegistersEqualScales ieee k n))
+    let _ := k
+    some (pairStr (poolRegistersEqualScales ieee n))
   | "ewregspec" :: "mul" :: rest => do
     let (a, rest) ← parseFVal rest
     let (b, rest) ← parseFVal rest
